@@ -218,10 +218,16 @@ def observe_edits(case):
         m2, _ = chy.renumbered(m, rnd)
         out.append(record(m, m2))
     look()
-    for _ in range(case['steps']):
+    for k in range(case['steps']):
         nums = list(m._atoms)
-        op = rnd.choice(['link8', 'link8', 'add', 'del', 'del8', 'del8', 'delatom', 'newfrag'])
+        op = rnd.choice(['link8', 'link8', 'add', 'del', 'del8', 'del8', 'delatom', 'newfrag', 'std'])
+        if k == 0 and case.get('first'):
+            op = case['first']
         try:
+            if op == 'std':          # group rules rewrite bond orders in place (some make coordinate bonds) and keep what they can of the cache
+                m.standardize()
+                look()
+                continue
             if op in ('link8', 'add') and len(nums) >= 2:
                 a, b = rnd.sample(nums, 2)
                 if b not in m._bonds[a]:
@@ -297,7 +303,13 @@ def run(ck):
         ck.ood('theta-gap-or-dense-cage', res['out'].count('"INFO"'))
     # (c2) reads interleaved with edits (coordinate bonds between fragments, deletions): derived ring / component data stay right
     sel = chy.pick([x for x in corp if len(x) < 50], 60 if ck.quick else 800, ck.seed, 7) + ['c1ccncc1.N.[Cu]', 'NCCN.[Ni]', 'C1CC1.C1CC1', '[Na+].[Cl-]']
-    cases = ck.select('after-edits', [{'key': f'edits:{s}:{ck.seed}', 'smi': s, 'rs': ck.seed * 13 + k, 'steps': 6} for k, s in enumerate(sel)])
+    cases = [{'key': f'edits:{s}:{ck.seed}', 'smi': s, 'rs': ck.seed * 13 + k, 'steps': 6} for k, s in enumerate(sel)]
+    # ring bonds that the group rules turn into coordinate bonds (amine- and sulfide-boranes, bridging hydrides): the ring set changes
+    # without any atom or bond being added or removed
+    dative = ['B1CCCN1(C)C', 'B1CCN1(C)C', 'B1CCCCS1C', 'B1CCCS1C', 'C1CCB2N1(C)CCC2', 'CB1(C)[H]B(C)(C)[H]1', 'CB1CCCC=[N+]1C', 'B1CCCO1C', 'C1CB2CCCN2(C)C1',
+              'B1(C)N(C)(C)B(C)N1(C)C', 'C1CCC2(CC1)B(C)N2(C)C', 'c1ccc2B(C)N(C)(C)Cc2c1', 'B1CCCN1(C)C.B1CCCS1C']
+    cases += [{'key': f'dative:{s}:{f}', 'smi': s, 'rs': ck.seed * 17 + k, 'steps': 4, 'first': f} for k, s in enumerate(dative) for f in ('std', 'link8')]
+    cases = ck.select('after-edits', cases)
     if cases:
         res = vlib.pmap('checks.c06', 'observe_edits', cases)
         recs, cs = [], []
